@@ -148,6 +148,39 @@ def run(prog, chk):
     ok = len(stat) == 1 and bool(wexit) and fpf.dominated(stat, guard_nodes=wexit)
     ok = ok and any(fpf.dominated([r], guard_edge=fpf.edge_guard(lambda t_: unparse(t_) in ("s.st_size != size", "size != s.st_size"), "T")) for r in rs)
     chk.ob("R4.put-confirms-size", "putfo", ok, pf.loc, "remote file closed (with-exit) before the confirming stat; size mismatch raises")
+    # ... on every path: with confirm on, the only way to the normal exit after the stat is the mismatch test coming out false
+    def _mismatch(t_):
+        return unparse(t_) in ("s.st_size != size", "size != s.st_size")
+
+    def _match(t_):
+        return unparse(t_) in ("s.st_size == size", "size == s.st_size")
+    gF, gT = fpf.edge_guard(_mismatch, "F"), fpf.edge_guard(_match, "T")
+    okall = len(stat) == 1 and fpf.cfg.dominated([fpf.cfg.exit.id], guard_edge=lambda s_, lab, d_: gF(s_, lab, d_) or gT(s_, lab, d_), avoid_edge=fpf.avoid,
+                                                 start=[d for (d, lab) in fpf.cfg.succ[stat[0].id] if lab not in ("exc", "raise")])
+    chk.ob("R4.put-confirms-size-on-every-path", "putfo", okall, pf.loc,
+           "with confirm on, putfo returns normally only through `s.st_size != size` being false (a size the server does not report is a mismatch too)")
+    # a dropped connection is never mistaken for end of file: BufferedFile.read treats EOFError from _read as EOF, so
+    # _read_response must turn the EOFError of _read_packet into an SSHException on every path
+    rr = prog.func("SFTPClient._read_response")
+    tries = [t_ for t_ in walk_no_defs(rr.node) if isinstance(t_, ast.Try) and any(M.is_call(c, name="self._read_packet") for st in t_.body for c in ast.walk(st))]
+    okc = len(tries) == 1
+    detail = "no try around _read_packet"
+    if okc:
+        hs = [h for h in tries[0].handlers if h.type is None or "EOFError" in unparse(h.type) or unparse(h.type) in ("Exception", "BaseException")]
+        okc = len(hs) >= 1
+        detail = "handlers: %s" % [unparse(h.type) if h.type is not None else "bare" for h in tries[0].handlers]
+        for h in hs[:1]:
+            frr = Flow(prog, rr, implicit=True)      # the handler is live only through the implicit exception edge of the call
+            inside = set(id(x) for st in h.body for x in ast.walk(st))
+            nodes = [n for n in frr.cfg.nodes if n.id in frr.live and n.ast is not None and id(n.ast) in inside]
+            raises = [n for n in nodes if n.kind == "raise"]
+            conv = [n for n in raises if isinstance(n.ast, ast.Raise) and n.ast.exc is not None and "SSHException" in unparse(n.ast.exc)]
+            other = [n for n in raises if n not in conv]
+            ids = set(n.id for n in nodes)
+            leaves = [n for n in nodes if n.kind != "raise" and any(d not in ids for (d, lab) in frr.cfg.succ[n.id] if lab not in ("exc", "raise"))]
+            okc = bool(conv) and not other and not leaves
+            detail = "%d converting raise(s), %d other raise(s), %d path(s) that carry on" % (len(conv), len(other), len(leaves))
+    chk.ob("R2.dropped-connection-is-not-eof", "_read_response", okc, rr.loc, "EOFError from _read_packet -> SSHException on every path of the handler (%s)" % detail)
     gt = prog.func("SFTPClient.get")
     fg = Flow(prog, gt, implicit=False)
     rs = fg.nodes(lambda x: x.kind == "raise")
